@@ -425,6 +425,12 @@ func (n *Notification) delete(pushUpdate bool) {
 	n.lock.Lock()
 	defer n.lock.Unlock()
 
+	// A notification that was never saved (or whose save was ignored) is not
+	// in the storage and has no metadata yet: there is nothing to delete.
+	if n.Meta() == nil {
+		return
+	}
+
 	// Save ID for deletion
 	id = n.EventID
 
